@@ -123,9 +123,9 @@ def replay_rewrite(target, model, nr, nrho, w):
   return (bool(bad), "; ".join(bad[:3]) or "both writes agree with the functions in force at the time", rec)
 
 
-def api_case(target, elements, pairs, nr, nrho, route="class", rot=0, dip=None, quad=None, extra_vcs=None, rewrite=True, surplus=None):
+def api_case(target, elements, pairs, nr, nrho, route="class", rot=0, dip=None, quad=None, extra_vcs=None, rewrite=True, surplus=None, shared=None, fs_undeclared=None):
   fs = target.endswith("_fs")
-  model = EC.Model(elements, pairs, fs=fs, dip=dip, quad=quad, pair_list_rotation=rot, surplus=surplus)
+  model = EC.Model(elements, pairs, fs=fs, dip=dip, quad=quad, pair_list_rotation=rot, surplus=surplus, shared=shared, fs_undeclared=fs_undeclared)
   res = new_result("api %s %s nr=%d nrho=%d %s" % (target, model.describe(), nr, nrho, route))
 
   def fn():
@@ -250,8 +250,9 @@ def _last_density_index(model, made):
   return idx[-1]
 
 
-def _failed_write_then(target, model, mk, meta, cutoff, nr, cutoff_rho, nrho, route):
-  """the sequence itself (shared by the symbolic run and the concrete replay): returns the text of the second model"""
+def _failed_write_then(target, model, mk, meta, cutoff, nr, cutoff_rho, nrho, route, fail=True):
+  """the sequence itself (shared by the symbolic run and the concrete replay): returns the text of the second model.
+  fail=False: the first model (same elements, every density declared, other functions) is written successfully instead."""
   import gc
   made = []
 
@@ -259,12 +260,14 @@ def _failed_write_then(target, model, mk, meta, cutoff, nr, cutoff_rho, nrho, ro
     m = mk("doomed_" + name)
     made.append(m)
     return m
-  eampots, pairpots, d, q = EC.build_objects(model, mk_doomed, meta)
-  # the last function created for the last element fails at its first evaluation
-  made[_last_density_index(model, made)].f = _raiser
+  first = model if fail else EC.Model(model.elements, model.pairs, fs=model.fs, dip=model.dip, quad=model.quad, pair_list_rotation=model.rot)
+  eampots, pairpots, d, q = EC.build_objects(first, mk_doomed, meta)
+  if fail:
+    # the last density function created fails at its first evaluation
+    made[_last_density_index(first, made)].f = _raiser
   try:
-    write_target(target, route, model, eampots, pairpots, d, q, cutoff, nr, cutoff_rho, nrho, Sink())
-    failed = False
+    write_target(target, route, first, eampots, pairpots, d, q, cutoff, nr, cutoff_rho, nrho, Sink())
+    failed = not fail
   except OverflowError:
     failed = True
   del eampots, pairpots, d, q
@@ -276,15 +279,15 @@ def _failed_write_then(target, model, mk, meta, cutoff, nr, cutoff_rho, nrho, ro
   return out.getvalue(), failed
 
 
-def after_failure_case(target, elements, pairs, nr, nrho, cutoff=4.5, cutoff_rho=7.5, route="func", rot=0, dip=None, quad=None):
-  """arbitrary (uninterpreted) functions on a concrete grid: model A fails during its write and is dropped; model B, same
-  shape and grid, new function objects, is then written and must hold B's functions only"""
+def after_failure_case(target, elements, pairs, nr, nrho, cutoff=4.5, cutoff_rho=7.5, route="func", rot=0, dip=None, quad=None, fail=True, fs_undeclared=None):
+  """arbitrary (uninterpreted) functions on a concrete grid: model A fails during its write (fail=False: is written) and is
+  dropped; model B, same elements and grid, new function objects, is then written and must hold B's functions only"""
   fs = target.endswith("_fs")
-  model = EC.Model(elements, pairs, fs=fs, dip=dip, quad=quad, pair_list_rotation=rot)
-  res = new_result("api %s %s nr=%d nrho=%d %s after a failed write of another model" % (target, model.describe(), nr, nrho, route))
+  model = EC.Model(elements, pairs, fs=fs, dip=dip, quad=quad, pair_list_rotation=rot, fs_undeclared=fs_undeclared)
+  res = new_result("api %s %s nr=%d nrho=%d %s after %s of another model" % (target, model.describe(), nr, nrho, route, "a failed write" if fail else "the write"))
 
   def fn():
-    text, failed = _failed_write_then(target, model, Mutable, EC.sym_meta, cutoff, nr, cutoff_rho, nrho, route)
+    text, failed = _failed_write_then(target, model, Mutable, EC.sym_meta, cutoff, nr, cutoff_rho, nrho, route, fail)
     return text, failed
 
   def build(path, wrong=False):
@@ -301,14 +304,14 @@ def after_failure_case(target, elements, pairs, nr, nrho, cutoff=4.5, cutoff_rho
       raise Structural("format", "reader rejects the file: %s" % e)
     vcs = EC.vcs_from(path, O, E)
     for v in vcs:
-      v.info = dict(v.info or {}, key="after-failed-write-" + (v.info or {}).get("key", "slot"))
+      v.info = dict(v.info or {}, key=("after-failed-write-" if fail else "after-another-model-") + (v.info or {}).get("key", "slot"))
     return vcs
 
   def replay(v, w, path, structural):
     names = EC.function_names(model)
     funcs = EC.concrete_functions(names + ["doomed_" + n for n in names])
     try:
-      text, failed = _failed_write_then(target, model, lambda name: _CM(funcs[name], name), EC.conc_meta, cutoff, nr, cutoff_rho, nrho, route)
+      text, failed = _failed_write_then(target, model, lambda name: _CM(funcs[name], name), EC.conc_meta, cutoff, nr, cutoff_rho, nrho, route, fail)
       dr, drho = cutoff / (nr - 1), cutoff_rho / (nrho - 1)
       parsed, O, E = observed_expected(target, text, model, nr, nrho, dr, drho, EC.float_alg(funcs), EC.conc_meta)
       style = EP.STYLE.get(target)
@@ -316,7 +319,7 @@ def after_failure_case(target, elements, pairs, nr, nrho, cutoff=4.5, cutoff_rho
     except Exception as e:  # noqa
       bad = ["%s: %s" % (type(e).__name__, e)]
     rec = dict(kind="eam_after_failure", target=target, model=model.describe(), nr=nr, nrho=nrho, cutoff=cutoff, cutoff_rho=cutoff_rho, mismatches=bad[:10])
-    return (bool(bad), "a model of the same shape failed during its write and was dropped; the table written next: " + ("; ".join(bad[:3]) or "agrees with its own functions"), rec)
+    return (bool(bad), "a model of the same shape %s and was dropped; the table written next: " % ("failed during its write" if fail else "was written") + ("; ".join(bad[:3]) or "agrees with its own functions"), rec)
 
   shims.install()
   try:
@@ -341,4 +344,34 @@ def after_failure_cases(target, tier, **kw):
       for route in (("func", "class") if target != "eam_adp" else ("class",)):
         out.append(Case("api %s %s after a failed write #%d %s" % (target, "/".join(order), j, route), after_failure_case, target=target, elements=order, pairs=st,
                         nr=3 + j, nrho=3, route=route, rot=i + j, **extra))
+  return out
+
+
+def shared_and_undeclared_cases(target, tier):
+  """one callable object serving an embedding function and a density (grids of different size and step);
+  Finnis-Sinclair models whose density mappings leave ordered pairs undeclared, alone and after a fully declared model"""
+  from symx.run import Case
+  out = []
+  fs = target.endswith("_fs")
+  orders = [("Cu",), ("Al", "Cu"), ("Zr", "Cu", "Al")] if tier == "quick" else [("Cu",), ("Al", "Cu"), ("Cu", "Al"), ("Zr", "Cu", "Al"), ("Al", "Zr", "Cu")]
+  for i, order in enumerate(orders):
+    cov = EC.covering_pair_states(order, seed=i + 3)
+    st = cov[i % len(cov)]
+    e0, e1 = order[0], order[-1]
+    dens0 = "rho_%s_%s" % (e0, e1) if fs else "rho_%s" % e0
+    dens1 = "rho_%s_%s" % (e1, e0) if fs else "rho_%s" % e1
+    shared = [("F_%s" % e0, dens0)] if i % 2 == 0 else [("F_%s" % e1, dens1, "F_%s" % e0)]
+    for (nr, nrho) in ((3, 4), (4, 2)):
+      for route in ("class", "func"):
+        if tier == "quick" and (nr, route) in ((4, "class"), (3, "func")):
+          continue
+        out.append(Case("api %s %s one object for %s nr=%d nrho=%d %s" % (target, "/".join(order), "=".join(shared[0]), nr, nrho, route), api_case, target=target,
+                        elements=order, pairs=st, nr=nr, nrho=nrho, route=route, rot=i, shared=shared))
+    if fs and len(order) > 1:
+      und = [(e0, e1)] if i % 2 else [(e1, e0), (e1, e1)]
+      out.append(Case("api %s %s undeclared %s" % (target, "/".join(order), und), api_case, target=target, elements=order, pairs=st, nr=3, nrho=3,
+                      route="class", rot=i, fs_undeclared=und))
+      for route in ("func", "class"):
+        out.append(Case("api %s %s undeclared %s after a fully declared model %s" % (target, "/".join(order), und, route), after_failure_case, target=target,
+                        elements=order, pairs=st, nr=3, nrho=3, route=route, rot=i, fail=False, fs_undeclared=und))
   return out
